@@ -71,6 +71,9 @@ pub struct CallLog {
     pub cancelled: bool,
     pub peer_certs: Option<usize>,
     pub has_timeout_header: Option<Vec<u8>>,
+    /// virtual milliseconds (paused-clock runtimes only)
+    pub entered_ms: Option<u64>,
+    pub completed_ms: Option<u64>,
 }
 
 #[derive(Clone, Default)]
@@ -140,6 +143,7 @@ impl Shared {
             method,
             script,
             has_timeout_header: md.get("grpc-timeout").map(|v| v.as_bytes().to_vec()),
+            entered_ms: crate::infra::rt::virtual_ms(),
             metadata: md,
             ..Default::default()
         });
@@ -149,7 +153,11 @@ impl Shared {
     }
     fn finish(&self, idx: usize, g: &mut Guard) {
         g.done = true;
-        self.log.lock().unwrap()[idx].completed = true;
+        {
+            let mut l = self.log.lock().unwrap();
+            l[idx].completed = true;
+            l[idx].completed_ms = crate::infra::rt::virtual_ms();
+        }
         self.event(idx, "completed", 0);
     }
     async fn drain<M: TestMsg>(&self, idx: usize, s: &mut Streaming<M>) {
@@ -211,10 +219,11 @@ impl Shared {
             if !sc.drain_first {
                 if let Some(r) = req.as_mut() { me.drain(idx, r).await; }
             }
+            // the stream is legitimately dropped right after an error item: finish first
+            me.finish(idx, &mut g);
             if let Some(st) = &sc.outcome {
                 yield Err(st.status());
             }
-            me.finish(idx, &mut g);
         })
     }
 }
